@@ -138,8 +138,8 @@ def nice_floats(lo, hi):
 @st.composite
 def surface_blocks(draw, allow_incoherent=False):
     """(label, block) for the end-use / plant selection."""
-    kind = draw(st.sampled_from(['elec', 'heat', 'heat_legacy', 'heat_noplant', 'chiller', 'heatpump', 'district',
-                                 'cogen', 'cogen', 'elec']))
+    kind = draw(st.sampled_from(['elec', 'elec', 'elec', 'heat', 'heat_legacy', 'heat_noplant', 'chiller', 'heatpump',
+                                 'district', 'cogen', 'cogen', 'cogen']))
     if kind == 'elec':
         p = draw(st.integers(1, 4))
         return f'elec-p{p}', ELEC(p)
